@@ -275,4 +275,74 @@ mod verif_in_context {
         kani::cover!(t != r && k1 == k2, "same kind, different identifier");
         kani::cover!(t != r && i1 == i2, "same identifier, different kind");
     }
+
+    // ------------------------------------------------------------------ L3: one actor step
+
+    pub(crate) struct VecTx {
+        pub(crate) out: [u8; 16],
+        pub(crate) n: usize,
+    }
+    impl AsyncWrite for VecTx {
+        fn poll_write(mut self: core::pin::Pin<&mut Self>, _cx: &mut core::task::Context<'_>, buf: &[u8]) -> core::task::Poll<std::io::Result<usize>> {
+            let mut i = 0;
+            while i < buf.len() {
+                let k = self.n;
+                assert!(k < 16, "verif bound: mock writer capacity");
+                self.out[k] = buf[i];
+                self.n += 1;
+                i += 1;
+            }
+            core::task::Poll::Ready(Ok(buf.len()))
+        }
+        fn poll_flush(self: core::pin::Pin<&mut Self>, _cx: &mut core::task::Context<'_>) -> core::task::Poll<std::io::Result<()>> {
+            core::task::Poll::Ready(Ok(()))
+        }
+        fn poll_close(self: core::pin::Pin<&mut Self>, _cx: &mut core::task::Context<'_>) -> core::task::Poll<std::io::Result<()>> {
+            core::task::Poll::Ready(Ok(()))
+        }
+    }
+    type CtxV = Context<NoRx, VecTx>;
+
+    fn task_cx() -> core::task::Context<'static> {
+        let w: &'static core::task::Waker = Box::leak(Box::new(futures::task::noop_waker()));
+        core::task::Context::from_waker(w)
+    }
+
+    //@ h name=probe_step_puback props=C10 tier=off cap=small to=3600 mem=45
+    //@ claim: experiment: one handle_packet(PUBACK) step
+    #[kani::proof]
+    #[kani::unwind(4)]
+    pub(crate) fn probe_step_puback() {
+        let mut cx = task_cx();
+        let mut tx = TxPacketStream::from(VecTx { out: [0; 16], n: 0 });
+        let r: u16 = kani::any();
+        let q: u16 = kani::any();
+        kani::assume(r >= 1 && q <= r);
+        let mut connection = Connection { disconnection_timestamp: None, session_expiry_interval: 0, remote_receive_maximum: r, remote_max_packet_size: None, send_quota: q };
+        let mut session = Session { awaiting_ack: VecDeque::new(), subscriptions: VecDeque::new(), retrasmit_queue: VecDeque::new() };
+        let id: u16 = 7;
+        let (s, mut rcv) = oneshot::channel();
+        let aid = ((PubackRx::PACKET_ID as usize) << 24) | ((id as usize) << 8);
+        session.awaiting_ack.push_back((aid, s));
+        let pkt = RxPacket::Puback(ack_rx(id));
+        {
+            let mut f = core::pin::pin!(CtxV::handle_packet(&mut tx, &mut connection, &mut session, pkt));
+            match core::future::Future::poll(f.as_mut(), &mut cx) {
+                core::task::Poll::Ready(Ok(())) => {}
+                _ => panic!("step must complete"),
+            }
+        }
+        assert!(connection.send_quota <= r);
+        if q < r {
+            assert!(connection.send_quota == q + 1);
+        }
+        assert!(session.awaiting_ack.is_empty());
+        let got = rcv.try_recv();
+        assert!(matches!(got, Ok(Some(Ok(RxPacket::Puback(_))))));
+        kani::cover!(q < r, "slot freed");
+        kani::cover!(q == r, "quota already full");
+        core::mem::forget(session);
+        core::mem::forget(got);
+        core::mem::forget(rcv);
+    }
 }
